@@ -28,6 +28,7 @@ type SpecEnv struct {
 	at    *ssa.BasicBlock // program point for local name resolution
 	inOld bool
 	tolerant bool
+	atLoopHeader bool // the program point is a loop header: its phis are the loop variables
 	paramsAtEntry bool
 	loads []Term // heap values of reference/slice sort read while evaluating (outside quantifiers)
 	toleranceUsed bool
@@ -57,6 +58,7 @@ func (env *SpecEnv) evalBool(e Expr) (string, error) {
 // evalBool in the context of the frame's own function at a program point
 func (fr *frame) evalBool(e Expr, cur, old *State, at *ssa.BasicBlock) (string, error) {
 	env := fr.ownEnv(cur, old, at)
+	env.atLoopHeader = at != nil
 	return env.evalBool(e)
 }
 
@@ -422,7 +424,7 @@ func (env *SpecEnv) localName(name string) (SVal, bool) {
 	// phis at the program point first (loop variables), then the most recent
 	// binding of the identifier according to the debug information (handles
 	// shadowing), then parameters / captured variables / named allocs.
-	if env.at != nil {
+	if env.at != nil && env.atLoopHeader {
 		for _, ins := range env.at.Instrs {
 			phi, ok := ins.(*ssa.Phi)
 			if !ok {
